@@ -17,6 +17,7 @@ class State:
         self.w = w
         self.caller_x, self.caller_y = caller_x, caller_y
         self.caller_x_terms, self.caller_y_terms = caller_x_terms, caller_y_terms
+        self.other_caller_arrays = []      # (label, array the caller handed in later, its terms)
 
     def snap(self):
         w = self.w
@@ -30,6 +31,10 @@ def make_state(ctx, L, kind, container="array"):
       fresh        Weaver(x, y) on the caller's arrays (working aliases them; reference/original are copies)
       tracked      working == reference (separate arrays) != original   (after some domain history)
       reshaped     working has its own length/values, reference != original (after domain history + reshape)
+      reshaped-other-range  as reshaped, but working and reference span different ranges (reachable: e.g.
+                   recreate_from_average followed by repeat, whose junction step differs for the two series)
+      gridded      as tracked, but the working abscissae ARE an array the caller handed in
+                   (interpolate(new_x=<ndarray>) keeps the caller's array, np.asarray does not copy)
     """
     from traffic_weaver import Weaver
     ox, oy = ctx.reals("ox", L), ctx.reals("oy", L)
@@ -52,11 +57,20 @@ def make_state(ctx, L, kind, container="array"):
     w.x_scale, w.y_scale = sx, sy
     if kind == "tracked":
         return st
+    if kind == "gridded":
+        gx, gy = ctx.reals("gx", L), ctx.reals("gy", L)
+        increasing(ctx, gx)
+        ctx.assume(ctx.And(ctx.eq(gx[0], px[0]), ctx.eq(gx[-1], px[-1])))
+        grid = arr(ctx, gx)
+        w.x, w.y = grid, arr(ctx, gy)
+        st.other_caller_arrays.append(("new_x handed to interpolate", grid, list(gx)))
+        return st
     Lq = L + 2
     qx, qy = ctx.reals("qx", Lq), ctx.reals("qy", Lq)
     increasing(ctx, qx)
-    # a reshaped working series spans the same range as the reference
-    ctx.assume(ctx.And(ctx.eq(qx[0], px[0]), ctx.eq(qx[-1], px[-1])))
+    if kind == "reshaped":
+        # the usual reshaped working series spans the same range as the reference
+        ctx.assume(ctx.And(ctx.eq(qx[0], px[0]), ctx.eq(qx[-1], px[-1])))
     w.x, w.y = arr(ctx, qx), arr(ctx, qy)
     return st
 
